@@ -180,16 +180,24 @@ def run(rep, model, tier, seed, broken=()):
             extra = rng.choice([[], ["-p", "pfx"], ["-e", "*.txt", "-p", "my prefix"], ["-e", "a*"]])
             out1 = os.path.join(tdir, "out_cmake")
             out2 = os.path.join(tdir, "out_cli")
-            script = os.path.join(tdir, "drive.cmake")
+            # the input as the caller writes it: absolute, or relative to the working directory of the cmake
+            # process while the calling script lives in another directory
+            relative = rng.random() < 0.4
+            inp_abs = inp
+            if relative:
+                inp = os.path.relpath(inp_abs, tdir)
+                os.makedirs(os.path.join(tdir, "scripts"), exist_ok=True)
+            script = os.path.join(tdir, "scripts" if relative else "", "drive.cmake")
             with open(script, "w") as f:
                 f.write(f"set(CMINX_EXECUTABLE {cmake_quote(cli)})\ninclude({cmake_quote(str(core.REPO / 'cmake' / 'cminx.cmake'))})\n")
                 f.write("cminx_gen_rst(" + " ".join(cmake_quote(a) for a in [inp, out1] + extra) + ")\n")
             p1 = subprocess.run(["cmake", "-P", script], cwd=tdir, stdout=subprocess.PIPE, stderr=subprocess.PIPE,
                                 timeout=300)
-            argv = [inp] + (["-r"] if os.path.isdir(inp) else []) + extra + ["-o", out2]
+            argv = [inp] + (["-r"] if os.path.isdir(inp_abs) else []) + extra + ["-o", out2]
             p2 = subprocess.run([cli] + argv, cwd=tdir, stdout=subprocess.PIPE, stderr=subprocess.PIPE, timeout=300)
             s1, s2 = treeh.snapshot(out1) if os.path.isdir(out1) else {}, treeh.snapshot(out2) if os.path.isdir(out2) else {}
             rep.dist("e2e_" + kind)
+            rep.dist("e2e_relative_input" if relative else "e2e_absolute_input")
             rep.count_case(json.dumps([kind, extra, i]), True)
             prob = None
             if s1 != s2:
@@ -202,7 +210,7 @@ def run(rep, model, tier, seed, broken=()):
                 nbad += 1
                 if nbad <= 3:
                     rep.violation(dict(kind="cminx_gen_rst end-to-end: " + prob["what"], diff=prob, input_kind=kind,
-                                       extra=extra))
+                                       extra=extra, input_as_written=inp, script_dir_differs_from_cwd=relative))
             shutil.rmtree(tdir, ignore_errors=True)
         rep.coverage["correspondence"]["cmake -P + working-tree CLI vs direct CLI (output trees)"] = ne2e
         rep.coverage["disagreements"] = nbad
